@@ -36,12 +36,20 @@ where
     }
 
     pub(crate) fn run(mut self) -> Result<(), S::Error> {
+        // When the search is stopped while a buffer is being searched (by
+        // the sink or by stop_on_nonmatch), the bytes of that buffer that
+        // were searched count too, as they do when searching a slice.
+        let mut searched_in_buffer = 0;
         if self.core.begin()? {
-            while self.fill()? && self.core.match_by_line(self.rdr.buffer())? {
+            while self.fill()? {
+                if !self.core.match_by_line(self.rdr.buffer())? {
+                    searched_in_buffer = self.core.pos() as u64;
+                    break;
+                }
             }
         }
         self.core.finish(
-            self.rdr.absolute_byte_offset(),
+            self.rdr.absolute_byte_offset() + searched_in_buffer,
             self.rdr.binary_byte_offset(),
         )
     }
